@@ -348,3 +348,16 @@ func (a *accumulatorIter) Next(ctx *Context) (r Row, err error) {
 }
 
 func (a *accumulatorIter) Close(ctx *Context) error { return nil }
+
+const capabilityClientFoundRows = 1 << 1
+
+type client struct{ Capabilities uint32 }
+
+func defaultAccumulatorIter(cl client, iter RowIter) RowIter {
+	clientFoundRowsToggled := (cl.Capabilities & capabilityClientFoundRows) > 0
+	rowHandler := getRowHandler(clientFoundRowsToggled, iter)
+	if rowHandler == nil {
+		return iter
+	}
+	return &accumulatorIter{iter: iter, updateRowHandler: rowHandler}
+}
